@@ -459,8 +459,34 @@ func (e *Env) call(x SCall) TV {
 		n.bound[id.Name] = SStr
 		b := n.eval(x.Args[1])
 		return TV{Term{fmt.Sprintf("(forall ((%s Str)) %s)", id.Name, b.T.S), SBool}, types.Typ[types.Bool]}
+	case "pat":
+		// pat(t1, ..., tn, body): body annotated with the multi-pattern (t1 ... tn)
+		if len(x.Args) < 2 {
+			e.fail("pat(terms..., body)")
+		}
+		var ts []string
+		for _, a := range x.Args[:len(x.Args)-1] {
+			ts = append(ts, e.eval(a).T.S)
+		}
+		b := e.eval(x.Args[len(x.Args)-1])
+		return TV{Term{fmt.Sprintf("(! %s :pattern (%s))", b.T.S, strings.Join(ts, " ")), SBool}, types.Typ[types.Bool]}
 	case "forall", "exists":
-		// forall(i, lo, hi, body)  or  forall(i, body)
+		// forall(i, lo, hi, body)  or  forall(i, body)  or  forall(i, j, body) (two unbounded variables)
+		if len(x.Args) == 3 {
+			id1, ok1 := x.Args[0].(SIdent)
+			id2, ok2 := x.Args[1].(SIdent)
+			if !ok1 || !ok2 {
+				e.fail("forall(i, j, body)")
+			}
+			n := *e
+			n.bound = map[string]Sort{}
+			for k, v := range e.bound {
+				n.bound[k] = v
+			}
+			n.bound[id1.Name], n.bound[id2.Name] = SInt, SInt
+			b := n.eval(x.Args[2])
+			return TV{Term{fmt.Sprintf("(%s ((%s Int) (%s Int)) %s)", x.Fn, id1.Name, id2.Name, b.T.S), SBool}, types.Typ[types.Bool]}
+		}
 		if len(x.Args) != 4 && len(x.Args) != 2 {
 			e.fail("%s(i, lo, hi, body) or %s(i, body)", x.Fn, x.Fn)
 		}
